@@ -972,6 +972,7 @@ func (p *PubSub) processLoop(ctx context.Context) {
 			for t := range p.mySubs {
 				out = append(out, t)
 			}
+			verifYield("loop-reply", "")
 			treq.resp <- out
 		case topic := <-p.addTopic:
 			p.handleAddTopic(topic)
@@ -988,6 +989,7 @@ func (p *PubSub) processLoop(ctx context.Context) {
 		case preq := <-p.getPeers:
 			tmap, ok := p.topics[preq.topic]
 			if preq.topic != "" && !ok {
+				verifYield("loop-reply", "")
 				preq.resp <- nil
 				continue
 			}
@@ -1001,6 +1003,7 @@ func (p *PubSub) processLoop(ctx context.Context) {
 				}
 				peers = append(peers, p)
 			}
+			verifYield("loop-reply", "")
 			preq.resp <- peers
 		case in := <-p.incoming:
 			switch in.kind {
@@ -1156,11 +1159,13 @@ func (p *PubSub) handleAddTopic(req *addTopicReq) {
 
 	t, ok := p.myTopics[topicID]
 	if ok {
+		verifYield("loop-reply", "")
 		req.resp <- t
 		return
 	}
 
 	p.myTopics[topicID] = topic
+	verifYield("loop-reply", "")
 	req.resp <- topic
 }
 
@@ -1170,6 +1175,7 @@ func (p *PubSub) handleRemoveTopic(req *rmTopicReq) {
 	topic := p.myTopics[req.topic.topic]
 
 	if topic == nil {
+		verifYield("loop-reply", "")
 		req.resp <- nil
 		return
 	}
@@ -1178,10 +1184,12 @@ func (p *PubSub) handleRemoveTopic(req *rmTopicReq) {
 		len(p.mySubs[req.topic.topic]) == 0 &&
 		p.myRelays[req.topic.topic] == 0 {
 		delete(p.myTopics, topic.topic)
+		verifYield("loop-reply", "")
 		req.resp <- nil
 		return
 	}
 
+	verifYield("loop-reply", "")
 	req.resp <- fmt.Errorf("cannot close topic: outstanding event handlers or subscriptions")
 }
 
@@ -1245,6 +1253,7 @@ func (p *PubSub) handleAddSubscription(req *addSubReq) {
 
 	p.mySubs[sub.topic][sub] = struct{}{}
 
+	verifYield("loop-reply", "")
 	req.resp <- sub
 }
 
@@ -1279,6 +1288,7 @@ func (p *PubSub) handleAddRelay(req *addRelayReq) {
 		}
 	}
 
+	verifYield("loop-reply", "")
 	req.resp <- relayCancelFunc
 }
 
